@@ -297,6 +297,84 @@ package cache
 //@   ensures {C07,C01,seq} post.exact: forall q: string :: gomap(res0)[q] == liveMap(P, t0)[q]
 //@   ensures {C07,seq} post.state: view(c.items) == P
 //@   ensures cacheInv(c)
+// ---------------------------------------------------------------------------------------------
+// Configuration and construction (C09, C15)
+// ---------------------------------------------------------------------------------------------
+//@ define normD(x) = ite(x < 1, NoExpiration, x)
+//@ define normI(x) = ite(x < 0, 0, x)
+//@ define normC(x) = ite(x < 96, 96, x)
+
+//@ func DefaultConfig
+//@   ensures {C09,C15} post.value: res0.DefaultExpiration == NoExpiration && res0.CleanupInterval == 10000000000 && res0.EvictedCallback == nil && res0.MinCapacity == 96
+
+//@ func configDefault
+//@   requires wfslice(config)
+//@   ensures {C09,C15} post.none: len(config) < 1 ==> res0.DefaultExpiration == NoExpiration && res0.CleanupInterval == 10000000000 && res0.EvictedCallback == nil && res0.MinCapacity == 96
+//@   ensures {C09} post.expiration: len(config) >= 1 ==> res0.DefaultExpiration == normD(config[0].DefaultExpiration)
+//@   ensures {C15} post.interval: len(config) >= 1 ==> res0.CleanupInterval == normI(config[0].CleanupInterval)
+//@   ensures {C11} post.capacity: len(config) >= 1 ==> res0.MinCapacity == normC(config[0].MinCapacity)
+//@   ensures {C06} post.callback: len(config) >= 1 ==> res0.EvictedCallback == config[0].EvictedCallback
+
+//@ func WithDefaultExpiration$1
+//@   requires config != nil
+//@   modifies mem(config.DefaultExpiration)
+//@   ensures {C09} post.value: config.DefaultExpiration == duration
+
+//@ func WithCleanupInterval$1
+//@   requires config != nil
+//@   modifies mem(config.CleanupInterval)
+//@   ensures {C15} post.value: config.CleanupInterval == interval
+
+//@ func WithEvictedCallback$1
+//@   requires config != nil
+//@   modifies mem(config.EvictedCallback)
+//@   ensures {C06} post.value: config.EvictedCallback == ec
+
+//@ func WithMinCapacity$1
+//@   requires config != nil
+//@   modifies mem(config.MinCapacity)
+//@   ensures {C11} post.value: config.MinCapacity == sizeHint
+
+//@ func NewMapPresized
+//@   trusted constructor contract (builtin-map semantics); discharged by the table-layer proofs when those are enabled
+//@   modifies view(res0)
+//@   ensures res0 != nil && mapInv(res0) && view(res0) == emptymap(view(res0))
+
+//@ func newXsyncMap$2
+//@   requires m != nil && m.xsyncMap != nil
+//@   ensures {C15} post.closes: closed(m.stop)
+
+//@ func newXsyncMap$1
+//@   requires cfg.CleanupInterval > 0 && c != nil && cacheInv(c)
+//@   reenters cacheInv(c)
+//@   modifies allghost, allmem
+//@   loop for.body: invariant cacheInv(c)
+//@   loop for.body: iteration {C15} tick.cleans-once: iterselect() == 0 && itercalls("DeleteExpired") == 1
+//@   ensures {C15} post.ticker: tickerchan(old(cfg.CleanupInterval))
+//@   ensures {C15} post.stop: iterselect() == 1 && itercalls("DeleteExpired") == 0 && selectchan(1) == c.stop
+
+//@ func newXsyncMap
+//@   requires wfslice(config)
+//@   modifies allghost
+//@   let cfg0 = configDefault(config)
+//@   let w = res0.(*xsyncMapWrapper)
+//@   ensures {C09,C15} post.inv: w != nil && cacheInv(w.xsyncMap) && fresh(w) && fresh(w.xsyncMap)
+//@   ensures {C01} post.empty: view(w.xsyncMap.items) == emptymap(view(w.xsyncMap.items))
+//@   ensures {C09} post.default: DEXP(w.xsyncMap) == cfg0.DefaultExpiration
+//@   ensures {C06} post.callback: EC(w.xsyncMap) == cfg0.EvictedCallback
+//@   ensures {C15} post.janitor.iff: nspawn() == old(nspawn()) + ite(cfg0.CleanupInterval > 0, 1, 0)
+//@   ensures {C15} post.janitor.fn: cfg0.CleanupInterval > 0 ==> spawnfn(0, "newXsyncMap$1")
+//@   ensures {C15} post.janitor.footprint: spawnedbefore(w)
+//@   ensures {C15} post.finalizer: finalizer(w, "newXsyncMap$2")
+//@ func newXsyncMapDefault
+//@   requires wfslice(evictedCallback)
+//@   modifies allghost
+//@   let w = res0.(*xsyncMapWrapper)
+//@   ensures {C09,C15} post.inv: w != nil && cacheInv(w.xsyncMap)
+//@   ensures {C01} post.empty: view(w.xsyncMap.items) == emptymap(view(w.xsyncMap.items))
+//@   ensures {C09} post.default: DEXP(w.xsyncMap) == normD(defaultExpiration)
+//@   ensures {C06} post.callback: EC(w.xsyncMap) == ite(len(evictedCallback) > 0, evictedCallback[0], nil)
+//@   ensures {C15} post.janitor.iff: nspawn() == old(nspawn()) + ite(cleanupInterval > 0, 1, 0)
 //@ -- twin-end Cache
 
 //@ -- twin-begin CacheOf
@@ -579,4 +657,82 @@ package cache
 //@   ensures {C07,C01,seq} post.exact: forall q: K :: gomap(res0)[q] == liveMapOf(P, t0)[q]
 //@   ensures {C07,seq} post.state: view(c.items) == P
 //@   ensures cacheInvOf(c)
+// ---------------------------------------------------------------------------------------------
+// Configuration and construction (C09, C15)
+// ---------------------------------------------------------------------------------------------
+//@ define normD(x) = ite(x < 1, NoExpiration, x)
+//@ define normI(x) = ite(x < 0, 0, x)
+//@ define normC(x) = ite(x < 96, 96, x)
+
+//@ func DefaultConfigOf
+//@   ensures {C09,C15} post.value: res0.DefaultExpiration == NoExpiration && res0.CleanupInterval == 10000000000 && res0.EvictedCallback == nil && res0.MinCapacity == 96
+
+//@ func configDefaultOf
+//@   requires wfslice(config)
+//@   ensures {C09,C15} post.none: len(config) < 1 ==> res0.DefaultExpiration == NoExpiration && res0.CleanupInterval == 10000000000 && res0.EvictedCallback == nil && res0.MinCapacity == 96
+//@   ensures {C09} post.expiration: len(config) >= 1 ==> res0.DefaultExpiration == normD(config[0].DefaultExpiration)
+//@   ensures {C15} post.interval: len(config) >= 1 ==> res0.CleanupInterval == normI(config[0].CleanupInterval)
+//@   ensures {C11} post.capacity: len(config) >= 1 ==> res0.MinCapacity == normC(config[0].MinCapacity)
+//@   ensures {C06} post.callback: len(config) >= 1 ==> res0.EvictedCallback == config[0].EvictedCallback
+
+//@ func WithDefaultExpirationOf$1
+//@   requires config != nil
+//@   modifies mem(config.DefaultExpiration)
+//@   ensures {C09} post.value: config.DefaultExpiration == duration
+
+//@ func WithCleanupIntervalOf$1
+//@   requires config != nil
+//@   modifies mem(config.CleanupInterval)
+//@   ensures {C15} post.value: config.CleanupInterval == interval
+
+//@ func WithEvictedCallbackOf$1
+//@   requires config != nil
+//@   modifies mem(config.EvictedCallback)
+//@   ensures {C06} post.value: config.EvictedCallback == ec
+
+//@ func WithMinCapacityOf$1
+//@   requires config != nil
+//@   modifies mem(config.MinCapacity)
+//@   ensures {C11} post.value: config.MinCapacity == sizeHint
+
+//@ func NewMapOfPresized
+//@   trusted constructor contract (builtin-map semantics); discharged by the table-layer proofs when those are enabled
+//@   modifies view(res0)
+//@   ensures res0 != nil && mapInv(res0) && view(res0) == emptymap(view(res0))
+
+//@ func newXsyncMapOf$2
+//@   requires m != nil && m.xsyncMapOf != nil
+//@   ensures {C15} post.closes: closed(m.stop)
+
+//@ func newXsyncMapOf$1
+//@   requires cfg.CleanupInterval > 0 && c != nil && cacheInvOf(c)
+//@   reenters cacheInvOf(c)
+//@   modifies allghost, allmem
+//@   loop for.body: invariant cacheInvOf(c)
+//@   loop for.body: iteration {C15} tick.cleans-once: iterselect() == 0 && itercalls("DeleteExpired") == 1
+//@   ensures {C15} post.ticker: tickerchan(old(cfg.CleanupInterval))
+//@   ensures {C15} post.stop: iterselect() == 1 && itercalls("DeleteExpired") == 0 && selectchan(1) == c.stop
+
+//@ func newXsyncMapOf
+//@   requires wfslice(config)
+//@   modifies allghost
+//@   let cfg0 = configDefaultOf(config)
+//@   let w = res0.(*xsyncMapOfWrapper)
+//@   ensures {C09,C15} post.inv: w != nil && cacheInvOf(w.xsyncMapOf) && fresh(w) && fresh(w.xsyncMapOf)
+//@   ensures {C01} post.empty: view(w.xsyncMapOf.items) == emptymap(view(w.xsyncMapOf.items))
+//@   ensures {C09} post.default: DEXP(w.xsyncMapOf) == cfg0.DefaultExpiration
+//@   ensures {C06} post.callback: ECOf(w.xsyncMapOf) == cfg0.EvictedCallback
+//@   ensures {C15} post.janitor.iff: nspawn() == old(nspawn()) + ite(cfg0.CleanupInterval > 0, 1, 0)
+//@   ensures {C15} post.janitor.fn: cfg0.CleanupInterval > 0 ==> spawnfn(0, "newXsyncMapOf$1")
+//@   ensures {C15} post.janitor.footprint: spawnedbefore(w)
+//@   ensures {C15} post.finalizer: finalizer(w, "newXsyncMapOf$2")
+//@ func newXsyncMapOfDefault
+//@   requires wfslice(evictedCallback)
+//@   modifies allghost
+//@   let w = res0.(*xsyncMapOfWrapper)
+//@   ensures {C09,C15} post.inv: w != nil && cacheInvOf(w.xsyncMapOf)
+//@   ensures {C01} post.empty: view(w.xsyncMapOf.items) == emptymap(view(w.xsyncMapOf.items))
+//@   ensures {C09} post.default: DEXP(w.xsyncMapOf) == normD(defaultExpiration)
+//@   ensures {C06} post.callback: ECOf(w.xsyncMapOf) == ite(len(evictedCallback) > 0, evictedCallback[0], nil)
+//@   ensures {C15} post.janitor.iff: nspawn() == old(nspawn()) + ite(cleanupInterval > 0, 1, 0)
 //@ -- twin-end CacheOf
